@@ -23,7 +23,8 @@ type C03Case struct {
 	RotSeed  []int  `json:"rot_seed"`  // per ring (cyclic): rotation of the start vertex
 	Reverse  []bool `json:"reverse"`   // per ring/line (cyclic)
 	PermSeed []int  `json:"perm_seed"` // Fisher-Yates draws for hole/member permutations (cyclic)
-	TX, TY   int    `json:"tx"`
+	TX       int    `json:"tx"`
+	TY       int    `json:"ty"`
 	Reflect  int    `json:"reflect"` // 0 none, 1 x -> -x, 2 y -> -y, 3 swap axes
 	Family   string `json:"family"`
 }
